@@ -114,7 +114,7 @@ def c09_oracle(schema, cfg, doc, update, real_errors):
     flat = flatten(real_errors)
     checked = 0
     for lv in levels(schema, doc, cfg):
-        if not lv.is_root and has_caret(lv.schema):
+        if not lv.is_root and (has_caret(lv.schema) or has_caret(lv.allow_unknown)):
             continue       # a separately built validator cannot know the outermost document
         for field, rules in lv.schema.items():
             if not isinstance(rules, dict) or field not in lv.doc:
@@ -207,7 +207,7 @@ def c10_oracle(schema, cfg, doc, update, real_errors):
             if isinstance(rules.get('keysrules'), dict) and isinstance(value, dict):
                 jobs.append((0x83, {k: rules['keysrules'] for k in value}, {k: k for k in value}, lv.cfg(), False))
             for code, sub_schema, sub_doc, c, upd in jobs:
-                if has_caret(sub_schema):
+                if has_caret(sub_schema) or has_caret(c.get('allow_unknown')):
                     continue      # root-relative paths need the outermost document: checked by c10_root_oracle
                 if code in (0x82, 0x8f, 0x84, 0x83) and mentions(sub_schema, ('excludes',)) and mentions(sub_schema, ('required',)):
                     continue      # deliberately cross-field (documented either-or)
@@ -278,6 +278,10 @@ def follow(doc, path):
     for k in path:
         if isinstance(cur, dict):
             if k not in cur:
+                # convention: `items` on a mapping validates its keys by position (iteration order)
+                if isinstance(k, int) and not isinstance(k, bool) and 0 <= k < len(cur):
+                    cur = list(cur)[k]
+                    continue
                 return False, None
             cur = cur[k]
         elif isinstance(cur, (list, tuple, str)):
@@ -333,7 +337,7 @@ def resolve_sp(schema, cfg, sp, au_root):
                 pass
             if k == 'schema':
                 c2 = schema_of(c)
-                if isinstance(c2, dict) and c2 and all(isinstance(x, (dict, str)) for x in c2.values()) \
+                if isinstance(c2, dict) and all(isinstance(x, (dict, str)) for x in c2.values()) \
                         and not (set(c2) & RULE_NAMES):
                     if isinstance(node.get('allow_unknown'), (dict, str)):
                         au = node['allow_unknown']
